@@ -57,8 +57,8 @@ def same_dtype_layouts(spec, rng, want=2, limit=40):
 def cases(ctx):
     rng = ctx.rng('main')
     quick = ctx.tier == 'quick'
-    for i in range(1500 if quick else 20000):
-        spec = gen.rand_frame_spec(rng, 4, 7, dtypes=['int64', 'float64', 'bool', 'str', 'object'], min_cols=1, run_bias=0.6)
+    for i in range(5000 if quick else 40000):
+        spec = gen.rand_frame_spec(rng, 6, 7, dtypes=['int64', 'float64', 'bool', 'str', 'object'], min_cols=1, run_bias=0.6)
         n, m = spec['rows'], len(spec['cols'])
         op = rng.choice(TB_OPS)
         yield {'k': 'tb', 'spec': spec, 'op': op,
